@@ -236,6 +236,62 @@ pub fn run_adm(base: Instant, a: &Adm) -> Result<AdmOut, String> {
     })
 }
 
+/// Two datagrams handed to send() back to back (they may share a packet): sizes `a` then `b`.
+pub fn run_pair(base: Instant, mtu: &MtuState, a: usize, b: usize) -> Result<(Vec<(String, String)>, bool), String> {
+    guarded(|| {
+        let adm = Adm { mtu: mtu.clone(), peer_buf: Some(65535), send_buf: 1024 * 1024, local_enabled: true, size: 0 };
+        let cfg = adm_cfg(&adm);
+        let mut p = establish(base, &cfg, mtu);
+        let cch = p.cch;
+        let mut viol = vec![];
+        let rec0 = p.w.recs.len();
+        let (pa, pb) = (dgram_payload(1, a), dgram_payload(2, b));
+        let (ra, rb) = {
+            let s = p.w.nodes[CLIENT].conns.get_mut(&cch).unwrap();
+            (s.conn.datagrams().send(Bytes::from(pa.clone()), false).is_ok(), s.conn.datagrams().send(Bytes::from(pb.clone()), false).is_ok())
+        };
+        p.w.settle_conn(CLIENT, cch);
+        for _ in 0..60 {
+            if p.w.net.is_empty() {
+                break;
+            }
+            p.w.step();
+        }
+        let mut shared = false;
+        for r in &p.w.recs[rec0..] {
+            if let Rec::Emit { node, data, dst, mtu_before, .. } = r {
+                if *node != CLIENT {
+                    continue;
+                }
+                let n: usize = decode(data, cid_len_of(&p.w, *dst)).iter().map(|(_, f)| f.iter().filter(|x| matches!(x, WFrame::Datagram { .. })).count()).sum();
+                shared |= n >= 2;
+                if n > 0 && data.len() > *mtu_before as usize {
+                    viol.push(("datagram-packet-exceeds-mtu".into(), format!("a UDP datagram of {} bytes carrying {n} DATAGRAM frames left with the MTU at {}", data.len(), mtu_before)));
+                }
+            }
+        }
+        let got: Vec<Vec<u8>> = {
+            let s = p.server_mut().unwrap();
+            let mut v = vec![];
+            while let Some(d) = s.conn.datagrams().recv() {
+                v.push(d.to_vec());
+            }
+            v
+        };
+        let mut want = vec![];
+        if ra {
+            want.push(pa);
+        }
+        if rb {
+            want.push(pb);
+        }
+        if got != want {
+            viol.push(("datagram-not-delivered-intact".into(), format!("two datagrams of {a} and {b} bytes were accepted ({ra}, {rb}) and sent over a lossless path; the peer obtained sizes {:?}", got.iter().map(|d| d.len()).collect::<Vec<_>>())));
+        }
+        (viol, shared)
+    })
+}
+
 // ---------------------------------------------------------------- queue model
 
 #[derive(Clone, Copy, Debug, PartialEq)]
@@ -410,7 +466,7 @@ pub fn main(args: &Args) -> ! {
     let base = Instant::now();
     let mut rep = Report::new("C16", args, "model_checking");
     let dl = deadline(if thorough { 1500 } else { 50 });
-    rep.rule = "E3: (a) admission: for EVERY datagram size from 0 to max_size()+2 x MTU state {initial 1200, after discovery 1452, after black-hole fallback, initial with 2-byte packet numbers (140 packets unacknowledged)} x peer max_datagram_frame_size {absent, 1, 100, 1200, 65535} x send buffer {0, size-1, size, default} x local support on/off, send() must accept exactly when size <= min(max_size(), send buffer), the reported maximum must fit one packet on the current path and the peer's limit (independent arithmetic), an accepted datagram must appear exactly once on the wire in one DATAGRAM frame inside a UDP datagram <= current MTU and arrive byte-identical; (b) queue: every sequence of length <= d over send(len, drop), flush, recv, buffer-space query with len in {1, B/3, B/2, B} against a FIFO-with-byte-budget reference model (Blocked, DatagramsUnblocked, send_buffer_space, oldest-dropped-first on both sides); (c) integrity: E2 with <=k fate deviations over a mixed stream+datagram workload: every received datagram is byte-identical to one sent, each at most once. Non-trivial = admission cells at or next to a boundary, queue sequences with distinct answer traces; distinct counts those.".into();
+    rep.rule = "E3: (a) admission: for EVERY datagram size from 0 to max_size()+2 x MTU state {initial 1200, after discovery 1452, after black-hole fallback, initial with 2-byte packet numbers (140 packets unacknowledged)} x peer max_datagram_frame_size {absent, 1, 100, 1200, 65535} x send buffer {0, size-1, size, default} x local support on/off, send() must accept exactly when size <= min(max_size(), send buffer), the reported maximum must fit one packet on the current path and the peer's limit (independent arithmetic), an accepted datagram must appear exactly once on the wire in one DATAGRAM frame inside a UDP datagram <= current MTU and arrive byte-identical; (a2) two datagrams handed over back to back (first 1/100/700 bytes, second EVERY size around the space the first leaves in the packet, at MTU 1200 and 1452): no UDP datagram above the MTU, both arrive intact and in order; (b) queue: every sequence of length <= d over send(len, drop), flush, recv, buffer-space query with len in {1, B/3, B/2, B} against a FIFO-with-byte-budget reference model (Blocked, DatagramsUnblocked, send_buffer_space, oldest-dropped-first on both sides); (c) integrity: E2 with <=k fate deviations over a mixed stream+datagram workload: every received datagram is byte-identical to one sent, each at most once. Non-trivial = admission cells at or next to a boundary, queue sequences with distinct answer traces; distinct counts those.".into();
     // (a)
     let mut cases = vec![];
     for mtu in [MtuState::Initial, MtuState::Discovered, MtuState::FellBack, MtuState::LongPn] {
@@ -469,6 +525,50 @@ pub fn main(args: &Args) -> ! {
     rep.part("admission", json!({"cells": n_adm, "executed": res.len(), "boundary_cells": boundary, "fallback_state_unreachable_cells": unreached, "capped": capped}));
     if boundary == 0 {
         machinery("vacuity guard: no admission cell at a boundary");
+    }
+    // (a2) two datagrams back to back: every size of the second one around the space the first leaves
+    {
+        let mut tasks = vec![];
+        for mtu in [MtuState::Initial, MtuState::Discovered] {
+            let top: usize = if mtu == MtuState::Initial { 1200 } else { 1452 };
+            for a in [1usize, 100, 700] {
+                if !thorough && mtu == MtuState::Initial && a == 100 {
+                    continue;
+                }
+                let room = top.saturating_sub(a + 30);
+                let lo = if thorough { 0 } else { room.saturating_sub(40) };
+                for b in lo..=(room + 12).min(top) {
+                    tasks.push((mtu.clone(), a, b));
+                }
+            }
+        }
+        let planned = tasks.len();
+        let (res, capped) = e3(tasks, dl, |(m, a, b)| run_pair(base, m, *a, *b));
+        rep.exhaustive &= !capped;
+        let mut shared_packets = 0u64;
+        for ((m, a, b), r) in &res {
+            rep.evaluations += 1;
+            let rj = json!({"check":"c16","kind":"pair","mtu":format!("{m:?}"),"a":a,"b":b});
+            match r {
+                Err(e) => rep.violation(Violation { signature: "panic".into(), what: format!("pair {a}+{b} at {m:?}: panic: {e}"), replay: rj }),
+                Ok((viol, shared)) => {
+                    if *shared {
+                        shared_packets += 1;
+                        let mut h = std::collections::hash_map::DefaultHasher::new();
+                        use std::hash::{Hash, Hasher};
+                        (format!("{m:?}"), a, b).hash(&mut h);
+                        rep.distinct.insert(h.finish());
+                    }
+                    for (sig, what) in viol {
+                        rep.violation(Violation { signature: sig.clone(), what: format!("mtu state {m:?}: {what}"), replay: rj.clone() });
+                    }
+                }
+            }
+        }
+        rep.part("back_to_back_pairs", json!({"planned": planned, "executed": res.len(), "pairs_sharing_one_packet": shared_packets, "capped": capped}));
+        if shared_packets == 0 {
+            machinery("vacuity guard: no pair of datagrams ever shared a packet");
+        }
     }
     // (b)
     let depth = if thorough { 6 } else { 5 };
@@ -563,6 +663,10 @@ fn replay(v: &Value) -> ! {
                 Err(e) => println!("PANIC {e}"),
                 Ok(o) => println!("{a:?}\naccepted={} pn_len={} max_size={:?} mtu={} violations={:?}", o.accepted, o.pn_len, o.max_size, o.mtu, o.viol),
             }
+        }
+        "pair" => {
+            let m = match r["mtu"].as_str().unwrap_or("") { "Discovered" => MtuState::Discovered, _ => MtuState::Initial };
+            println!("{:?}", run_pair(Instant::now(), &m, r["a"].as_u64().unwrap_or(0) as usize, r["b"].as_u64().unwrap_or(0) as usize));
         }
         "queue" => {
             let parse = |s: &str| -> QOp {
